@@ -1265,7 +1265,8 @@ void Logic::dumpHeaderToFile(std::ostream & dump_out) const {
         else if (isBuiltinFunction(s))
             continue;
         else { dump_out << "(declare-fun "; }
-        auto sym = symToString(s);
+        // A declaration names the symbol; the sort annotation of an ambiguous name belongs to its uses only
+        auto sym = protectName(s);
         dump_out << sym << " ";
         Symbol const & symb = sym_store[s];
         dump_out << "(";
